@@ -43,13 +43,18 @@ def generic_part(V, tr, sd, checks=("C01",), emit=None):
         fl = "lgas" if i % 3 == 0 else "water"
         jobs.append({"id": "g%d" % i, "an": n["net"], "fluid": fl, "params": row_params(n["net"]), "opts": dict(c04.PF_OPTS), "check": list(checks), "prune": False})
     cases = [c for c in core.pmap(pf.run_case_prune, jobs, chunksize=16) if "skip" not in c]
+    suite_cov = {}
+    if tr == "thorough" and emit is None:
+        from . import suite
+        scases, suite_cov = suite.pf_cases(list(checks))
+        cases = cases + scases
     res, fails = c04.validate(cases)
     by_id = {c["id"]: c for c in cases}
     for f in fails:
         for cl in f["clauses"]:
             V.report(cl[0], cl[1], by_id[f["id"]], text="detail=%s case=%s" % (cl[2:], f["id"]))
     ret = sum(1 for c in cases if c["outcome"] == "returned")
-    return {"generic_nets_run": len(cases), "generic_nets_returned": ret, "generic_failures": len(fails)}
+    return {"generic_nets_run": len(cases), "generic_nets_returned": ret, "generic_failures": len(fails), "repository_suite": suite_cov}
 
 
 def main():
